@@ -66,6 +66,8 @@ def pointee(t):
     return strip_quals(t[:-1]) if t.endswith("*") else None
 
 class Fn:
+    # functions that report and exit: the run ends with this (negative) code
+    NORETURN = {"temp_read": -2, "perm_partialline": -3, "straynewline": -4, "temp_nomem": -5, "resources": -6, "badproto": -7}
     def __init__(self, node, alias, known, chk=False):
         self.node = node; self.name = alias; self.known = known; self.chk = chk
         self.structs = []       # names of pointer-to-struct parameters (their fields become variables/arrays on first use)
@@ -112,6 +114,10 @@ class Fn:
         """MemberExpr p->f on a struct parameter -> ('var', name) | ('arr', name); declares it on first use"""
         inner = e["inner"][0]
         while inner.get("kind") in ("ImplicitCastExpr", "ParenExpr"): inner = inner["inner"][0]
+        if inner.get("kind") == "DeclRefExpr" and inner["referencedDecl"]["name"] not in self.vtype and not e.get("isArrow") \
+           and inner["referencedDecl"].get("kind") == "VarDecl":
+            self.structs.append(inner["referencedDecl"]["name"]); self.gstructs = getattr(self, "gstructs", []) + [inner["referencedDecl"]["name"]]
+            self.vtype[inner["referencedDecl"]["name"]] = "struct (file scope)"
         if inner.get("kind") != "DeclRefExpr" or inner["referencedDecl"]["name"] not in self.structs:
             raise Unsupported("member access on something that is not a struct parameter")
         nm = "%s__%s" % (inner["referencedDecl"]["name"], e["name"]); t = qt(e)
@@ -121,6 +127,7 @@ class Fn:
                 self.arrays.append(nm); self.base[nm] = nm
             elif int_type(t): self.vars.append(nm)
             else: raise Unsupported("field %s of type %s" % (nm, t))
+            if inner["referencedDecl"]["name"] in getattr(self, "gstructs", []): self.globals_ = getattr(self, "globals_", []) + [nm]
         return ("arr", nm) if nm in self.arrays else ("var", nm)
     def declare_global(self, e):
         """a file-scope variable: it becomes a further parameter of run (integers; arrays of integers)"""
@@ -159,9 +166,20 @@ class Fn:
                 if inner.get("kind") == "MemberExpr":
                     kind, nm = self.field(inner)
                     if kind == "arr": return [], nm, "0", s
+                if inner.get("kind") == "StringLiteral":
+                    return self.ptr(inner, s)
                 raise Unsupported("array decay of " + inner.get("kind", "?"))
             if ck == "NullToPointer": return [], None, "(-1)", s          # the null pointer: offset -1, no array
             raise Unsupported("pointer cast " + str(ck))
+        if k == "StringLiteral":
+            v = json.loads(e["value"]) if e["value"].startswith('"') else e["value"]
+            lst = "[" + "; ".join([str(b) for b in v.encode("latin1")] + ["0"]) + "]"
+            self.lits = getattr(self, "lits", {})
+            for nm, l in self.lits.items():
+                if l == lst: return [], nm, "0", s
+            nm = "lit%d" % (len(self.lits) + 1); self.lits[nm] = lst
+            self.arrays.append(nm); self.base[nm] = nm; self.vtype[nm] = "char [%d]" % (len(v) + 1)
+            return [], nm, "0", s
         if k == "MemberExpr":
             kind, nm = self.field(e)
             if kind != "arr": raise Unsupported("integer field used as a pointer")
@@ -417,7 +435,7 @@ class Fn:
         while a.get("kind") in ("ParenExpr", "ImplicitCastExpr", "CStyleCastExpr"): a = a["inner"][0]
         if a.get("kind") == "StringLiteral":
             v = json.loads(a["value"]) if a["value"].startswith('"') else a["value"]
-            return "[" + "; ".join(str(b) for b in v.encode("latin1")) + "; 0]"
+            return "[" + "; ".join([str(b) for b in v.encode("latin1")] + ["0"]) + "]"
         return None
     def builtin(self, nm, e, s):
         args = e["inner"][1:]
@@ -430,6 +448,76 @@ class Fn:
             w = self.wrap(self.vtype[r], exact); s3 = self.fresh()
             lets.append("let %s := set_v_%s %s %s in" % (s3, r, s2, w))
             return lets, "(b2z (negb (%s =? %s)))" % (w, exact), s3
+        NORETURN = self.NORETURN
+        if nm in NORETURN: raise Unsupported("call of the non-returning %s inside an expression" % nm)
+        def io_struct(a):
+            while a.get("kind") in ("ImplicitCastExpr", "ParenExpr", "CStyleCastExpr"): a = a["inner"][0]
+            if a.get("kind") == "UnaryOperator" and a.get("opcode") == "&":
+                x = a["inner"][0]
+                while x.get("kind") == "ParenExpr": x = x["inner"][0]
+                if x.get("kind") == "DeclRefExpr": return x["referencedDecl"]["name"]
+            raise Unsupported(nm + " on something that is not the address of a file-scope structure")
+        def ensure(nm_, arr):
+            # the descriptor's input, read position, output and failure flag are file-scope state: further parameters of run,
+            # handed on to and taken back from called functions like any other file-scope variable
+            if nm_ not in self.vtype:
+                self.vtype[nm_] = "char *" if arr else "int"
+                if arr: self.arrays.append(nm_); self.base[nm_] = nm_
+                else: self.vars.append(nm_)
+                self.globals_ = getattr(self, "globals_", []) + [nm_]
+        if nm == "substdio_get":
+            # reads the next byte of the descriptor's input (the list in_<ss>); 0 at end of input - or, where the program's read
+            # function exits at end of input (option eofdie), the run ends with code -9
+            ss = io_struct(args[0]); ensure(ss + "__in", True); ensure(ss + "__pos", False)
+            l, n, s1 = self.tr(args[2], s)
+            a2 = args[2]
+            while a2.get("kind") in ("ImplicitCastExpr", "ParenExpr", "CStyleCastExpr"): a2 = a2["inner"][0]
+            if a2.get("kind") != "IntegerLiteral" or a2.get("value") != "1": raise Unsupported("substdio_get of more than one byte")
+            loc = self.addr_local(args[1])
+            r = self.fresh("x"); s2 = self.fresh()
+            avail = "(v_%s__pos %s <? alen (a_%s__in %s))" % (ss, s1, ss, s1)
+            if loc is None:
+                l3, base, off, s1 = self.ptr(args[1], s1); l = l + l3
+                if base is None: raise Unsupported("substdio_get through a null pointer")
+                avail = "(v_%s__pos %s <? alen (a_%s__in %s))" % (ss, s1, ss, s1)
+                upd = "set_a_%s %s (wr (a_%s %s) %s (wrapu 8 (rd (a_%s__in %s) (v_%s__pos %s))))" % (base, s1, base, s1, off, ss, s1, ss, s1)
+            else:
+                upd = "set_v_%s %s %s" % (loc, s1, self.wrap(self.vtype[loc], "(rd (a_%s__in %s) (v_%s__pos %s))" % (ss, s1, ss, s1)))
+            lets = l + ["let %s := b2z %s in" % (r, avail),
+                        "let %s := if %s then set_v_%s__pos (%s) (v_%s__pos %s + 1) else %s in" % (s2, avail, ss, upd, ss, s1, s1)]
+            return lets, r, s2
+        if nm in ("substdio_put", "substdio_bput", "qmail_put"):
+            ss = io_struct(args[0]); ensure(ss + "__out", True)
+            l2, n, s1 = self.tr(args[2], s)
+            lit = self.str_literal(args[1]); loc = self.addr_local(args[1])
+            if lit is not None: data = "(firstn (Z.to_nat %s) %s)" % (n, lit)
+            elif loc is not None: data = "(firstn (Z.to_nat %s) [wrapu 8 (v_%s %s)])" % (n, loc, s1)
+            else:
+                l3, base, off, s1 = self.ptr(args[1], s1); l2 = l2 + l3
+                data = "(firstn (Z.to_nat %s) (skipn (Z.to_nat %s) (a_%s %s)))" % (n, off, base, s1)
+            s2 = self.fresh()
+            return l2 + ["let %s := set_a_%s__out %s (a_%s__out %s ++ %s) in" % (s2, ss, s1, ss, s1, data)], "(0)", s2
+        if nm in ("stralloc_append", "stralloc_copys"):
+            # a file-scope stralloc as the list of its len bytes (allocation is Mem/Stralloc.v's subject): append one byte / set to a string
+            sa = io_struct(args[0]); ensure(sa + "__s", True); ensure(sa + "__len", False)
+            s1 = s; l2 = []
+            if nm == "stralloc_copys":
+                lit = self.str_literal(args[1])
+                if lit is None: raise Unsupported("stralloc_copys of something that is not a literal")
+                data = "(removelast %s)" % lit; s2 = self.fresh()
+                return ["let %s := set_v_%s__len (set_a_%s__s %s %s) (alen %s) in" % (s2, sa, sa, s1, data, data)], "(1)", s2
+            loc = self.addr_local(args[1])
+            if loc is not None: b = "(wrapu 8 (v_%s %s))" % (loc, s1)
+            else:
+                l2, base, off, s1 = self.ptr(args[1], s1); b = "(wrapu 8 (rd (a_%s %s) %s))" % (base, s1, off)
+            s2 = self.fresh()
+            return l2 + ["let %s := set_v_%s__len (set_a_%s__s %s (firstn (Z.to_nat (v_%s__len %s)) (a_%s__s %s) ++ [%s])) (wrapu 32 (v_%s__len %s + 1)) in"
+                         % (s2, sa, sa, s1, sa, s1, sa, s1, b, sa, s1)], "(1)", s2
+        if nm == "substdio_flush":
+            io_struct(args[0]); return [], "(0)", s
+        if nm == "qmail_fail":
+            ss = io_struct(args[0]); ensure(ss + "__fail", False); s2 = self.fresh()
+            return ["let %s := set_v_%s__fail %s 1 in" % (s2, ss, s)], "(0)", s2
         if nm in ("stralloc_ready", "stralloc_readyplus"):
             # gen_alloc.h: make room for n (or len + n) elements; growth to need + need/8 + 30; failure of the allocator is the
             # run parameter alloc_ok.  (The arithmetic of the real function, incl. its overflow tests, is Mem/Stralloc.v's.)
@@ -477,7 +565,10 @@ class Fn:
             loc = self.addr_local(a) if is_ptr(qt(p)) else None
             lit = self.str_literal(a) if is_ptr(qt(p)) else None
             if loc is not None:
-                args.append("[v_%s %s]" % (loc, s)); args.append("0"); arr_args.append((p["name"], "&" + loc)); continue
+                # the cell holds the object representation: for a signed (or plain char) local its value reduced to the unsigned range
+                it_ = int_type(self.vtype[loc])
+                cell = "(wrapu %d (v_%s %s))" % (it_[0], loc, s) if it_ and it_[1] else "(v_%s %s)" % (loc, s)
+                args.append("[%s]" % cell); args.append("0"); arr_args.append((p["name"], "&" + loc)); continue
             if lit is not None:
                 args.append(lit); args.append("0"); continue
             if is_ptr(qt(p)):
@@ -498,6 +589,12 @@ class Fn:
             else: args.append("(v_%s %s)" % (x, s)); arr_args.append((x, "=" + x))
         r = self.fresh("r"); s1 = s
         lets.append("let %s := %s.run fuel0 %s in" % (r, g.name, " ".join(args)))
+        if getattr(g, "may_exit", False):
+            # the callee can end the program (exit codes are negative; its ordinary results are not): the caller ends with the same code
+            it = int_type(g.ret)
+            if g.ret != "void" and (it is None or it[1]): raise Unsupported("call of %s, which may exit and returns a signed value" % nm)
+            self.may_exit = True
+            self.pending_exit = getattr(self, "pending_exit", []) + ["(match %s with Some (v, _) => v | None => 0 end)" % r]
         # result: option (Z * st); written arrays are copied back
         val = "(match %s with Some (v, _) => v | None => 0 end)" % r
         for pn, base in arr_args:
@@ -505,7 +602,9 @@ class Fn:
             if base.startswith("="):
                 lets.append("let %s := match %s with Some (_, t) => set_v_%s %s (%s.v_%s t) | None => %s end in" % (s2, r, base[1:], s1, g.name, pn, s1))
             elif base.startswith("&"):
-                lets.append("let %s := match %s with Some (_, t) => set_v_%s %s (rd (%s.a_%s t) 0) | None => %s end in" % (s2, r, base[1:], s1, g.name, pn, s1))
+                it_ = int_type(self.vtype[base[1:]])
+                back = "(wraps %d (rd (%s.a_%s t) 0))" % (it_[0], g.name, pn) if it_ and it_[1] else "(rd (%s.a_%s t) 0)" % (g.name, pn)
+                lets.append("let %s := match %s with Some (_, t) => set_v_%s %s %s | None => %s end in" % (s2, r, base[1:], s1, back, s1))
             else:
                 lets.append("let %s := match %s with Some (_, t) => set_a_%s %s (%s.a_%s t) | None => %s end in" % (s2, r, base, s1, g.name, pn, s1))
             s1 = s2
@@ -520,12 +619,25 @@ class Fn:
         if not stmts: return "ONormal %s" % s
         first, rest = stmts[0], stmts[1:]
         k = first.get("kind")
+        if k == "CallExpr" and self.callee_name(first) in self.NORETURN:
+            self.may_exit = True
+            return "OReturn (%d) %s" % (self.NORETURN[self.callee_name(first)], s)
+        if k == "CallExpr" and self.callee_name(first) == "substdio_get" and getattr(self, "eofdie", False):
+            # the program's read function exits at end of input: the run ends with code -9
+            lets, r, s1 = self.tr(first, s)
+            self.may_exit = True
+            return " ".join(lets) + " (if %s =? 0 then OReturn (-9) %s else %s)" % (r, s1, self.seq(rest, s1))
         if k in ("BinaryOperator", "CompoundAssignOperator", "UnaryOperator", "CallExpr", "ParenExpr", "ImplicitCastExpr", "CStyleCastExpr"):
+            self.pending_exit = []
             if is_ptr(qt(first)) and k != "CallExpr":
                 lets, _, _, s1 = self.ptr(first, s)
             else:
                 lets, _, s1 = self.tr(first, s)
-            return " ".join(lets) + " " + self.seq(rest, s1)
+            pend = self.pending_exit; self.pending_exit = []
+            tail = self.seq(rest, s1)
+            for v in reversed(pend):
+                tail = "(if %s <? 0 then OReturn %s %s else %s)" % (v, v, s1, tail)
+            return " ".join(lets) + " " + tail
         if k == "DeclStmt":
             lets = []; s1 = s
             for d in first.get("inner", []):
@@ -600,6 +712,11 @@ class Fn:
             chain = "(if (%s)%%bool then %s else %s)" % (test, self.seq(st, s1), chain)
         return " ".join(lets) + " match (%s) with OBreak t => ONormal t | o => o end" % chain
     def tr_cond(self, c, s):
+        self.pending_exit = []
+        r = self.tr_cond0(c, s)
+        if getattr(self, "pending_exit", []): raise Unsupported("call of a function that may exit inside a condition")
+        return r
+    def tr_cond0(self, c, s):
         if is_ptr(qt(c)):
             l, _, off, s1 = self.ptr(c, s)
             return l, "(b2z (negb (%s =? -1)))" % off, s1
@@ -670,6 +787,7 @@ class Fn:
         for x in getattr(self, "globals_", []):
             if x in self.arrays: pnames.append("(g_%s_ : list Z)" % x); inits["a_" + x] = "g_%s_" % x
             else: pnames.append("(g_%s_ : Z)" % x); inits["v_" + x] = "g_%s_" % x
+        for a, l in getattr(self, "lits", {}).items(): inits["a_" + a] = l
         for a in self.arrays:
             m = re.match(r".*\[(\d+)\]$", strip_quals(self.vtype.get(a, "")))
             if m and "a_" + a not in inits: inits["a_" + a] = "(repeat 0 %s)" % m.group(1)
@@ -683,9 +801,11 @@ def main():
     known = {}; chunks = []; errors = []
     for spec in sys.argv[3:]:
         parts = spec.split(":"); cfile, fname = parts[0], parts[1]; alias = parts[2] if len(parts) > 2 and parts[2] else "C_" + fname
-        chk = len(parts) > 3 and parts[3] == "chk"
+        chk = len(parts) > 3 and "chk" in parts[3].split(",")
+        eofdie = len(parts) > 3 and "eofdie" in parts[3].split(",")
         try:
             kn = {k: v for k, v in known.items() if getattr(v, "chk", False) == chk}
+            Fn.eofdie = eofdie
             f = Fn(clang_function(srcdir, cfile, fname), alias, {k.split("#")[0]: v for k, v in kn.items()}, chk=chk)
             chunks.append("(* %s: %s()%s *)\n" % (cfile, fname, " with every array access checked (v__oob)" if chk else "") + f.emit()); known[fname + ("#chk" if chk else "")] = f
         except Unsupported as e:
